@@ -287,7 +287,8 @@ _add(PropertySpec(
 
 _add(PropertySpec(
     'C05', 'other',
-    functions=['ampycloud.data.AbstractChunk._cleanup_pdf', 'ampycloud.data.CeiloChunk.find_slices', 'ampycloud.data.CeiloChunk._setup_sligrolay_pdf'],
+    functions=['ampycloud.data.AbstractChunk._cleanup_pdf', 'ampycloud.data.CeiloChunk.find_slices', 'ampycloud.data.CeiloChunk._setup_sligrolay_pdf',
+               'ampycloud.layer.ncomp_from_gmm'],
     lemmas=['cnt_union', 'cnt_ext', 'cnt_mono', 'prop.C05.layer_ids_injective'],
     extras=[_fs.c05], bounded=_bounded('c05'),
     explanation=('PROVED (F): after construction no method writes any column of the private hit table other than slice_id / group_id / '
@@ -298,7 +299,10 @@ _add(PropertySpec(
                  'with a valid height a slice id >= 0 and every non-detection -1, writes no other hit column, and hands each cluster label '
                  'back to the row it was computed from (the assignment mask is the clustered selection, so the lengths agree: no '
                  'ValueError); the labels themselves come from the assumed clustering contract (one label >= 0 per sample).  '
-                 '_setup_sligrolay_pdf: one table row per set, cluster_id = set id.  BOUNDED (B): the same clause for groups and layers (find_groups / '
+                 '_setup_sligrolay_pdf: one table row per set, cluster_id = set id.  PROVED (P, block contract): the re-merge pass of ncomp_from_gmm '
+                 '(real statements from `base_comp_heights = ...` to the end; the mixture fit before it is replaced by an ASSUMED mid-condition) hands '
+                 'back one label in 0..K-1 (K <= 3) per value and a component count equal to the number of distinct labels (the built-in '
+                 'assert never fails).  BOUNDED (B): the same clause for groups and layers (find_groups / '
                  'find_layers are not under a full-mode contract), that the tables list exactly the ids present, n_<which> and the k-components-k-layers '
                  'clause depend on scikit-learn labels and pandas fills; checked natively on the scene grammar.'),
     assumptions=[A_FRAME, 'clustering / mixture model return one label per sample, mixture labels in 0..2 (library contracts)',
@@ -306,12 +310,57 @@ _add(PropertySpec(
     not_decided=['coverage of all valid hits by cluster labels (library behaviour; bounded only)'],
 ))
 
+def _fresh_star_param(fi, name):
+    """*args / **kwargs are containers built for the call: writing their own slots (K[k] = v, K.pop(k)) changes nothing the caller
+    holds.  True iff `name` is such a parameter and every store / mutating call rooted at it acts on the container itself."""
+    import ast as _ast
+    a = fi.node.args
+    if name not in {x.arg for x in (a.vararg, a.kwarg) if x is not None}:
+        return False
+    for n in _ast.walk(fi.node):
+        tgt = None
+        if isinstance(n, (_ast.Subscript, _ast.Attribute)) and isinstance(n.ctx, (_ast.Store, _ast.Del)):
+            tgt = n.value
+        elif isinstance(n, _ast.Call) and isinstance(n.func, _ast.Attribute):
+            tgt = n.func.value
+        if tgt is None or isinstance(tgt, _ast.Name):
+            continue
+        root = tgt
+        while isinstance(root, (_ast.Subscript, _ast.Attribute, _ast.Call)):
+            root = root.func if isinstance(root, _ast.Call) else root.value
+        if isinstance(root, _ast.Name) and root.id == name:
+            return False                   # acts on something *inside* the container: may be shared with the caller
+    return True
+
+
+def _c06_frames(run=None):
+    """what one group is decided with is what every group is decided with: the helpers the grouping / layering loops call leave the
+    objects handed to them (parameter dictionaries, height arrays) unmodified -- the frame half of the loop contracts"""
+    fc = _fs.FrameCheck()
+    todo, seen = [f'{_fs.CH}.find_groups', f'{_fs.CH}.find_layers', f'{_fs.CH}._merge_close_groups'], set()
+    while todo:
+        q = todo.pop()
+        if q in seen or q not in fc.an.summaries:
+            continue
+        seen.add(q)
+        todo += sorted(fc.S(q).calls)
+    for q in sorted(seen):
+        if q.startswith((_fs.CH + '.', _fs.AC + '.')):
+            continue                       # methods of the chunk: their writes to the chunk are the subject of C05 / C07
+        s = fc.S(q)
+        bad = sorted(w for w in s.writes if w.startswith('param:') and w != 'param:self' and not _fresh_star_param(fc.an.funcs[q], w[6:]))
+        fc.ob(q, 'arguments_unmodified', not bad, f'writes {bad} at {[fc.sites(q, b) for b in bad]}')
+        fc.ob(q, 'effects_known', not s.unknown, f'calls with unknown effect: {sorted(map(str, s.unknown))}', undecided=True)
+    return fc
+
+
 _add(PropertySpec(
     'C06', 'other',
     functions=['ampycloud.data.CeiloChunk._get_min_sep_for_height', 'ampycloud.utils.utils.calc_base_height',
-               'ampycloud.data.CeiloChunk._calculate_base_height_for_selection', 'ampycloud.data.CeiloChunk._merge_close_groups'],
+               'ampycloud.data.CeiloChunk._calculate_base_height_for_selection', 'ampycloud.data.CeiloChunk._merge_close_groups',
+               'ampycloud.layer.ncomp_from_gmm'],
     lemmas=['prop.C02.nosig', 'cnt_mono'],
-    bounded=_bounded('c06'),
+    extras=[_c06_frames], bounded=_bounded('c06'),
     explanation=('PROVED (P): _get_min_sep_for_height returns the MIN_SEP_VALS entry of the height bin (left insertion point in the ascending '
                  'limits; lengths mismatch => AmpycloudError; index always in range); calc_base_height is the percentile of the look-back '
                  'tail of what it is given, and _calculate_base_height_for_selection -- the one routine used both when deciding a merge '
@@ -322,11 +371,19 @@ _add(PropertySpec(
                  '(one write, to group_id only), drops that row, and recomputes every base through the routine that also produces the '
                  'reported bases, for exactly the remaining group ids; the loop terminates (a row is dropped per iteration) and on exit '
                  'any two adjacent groups are at least the minimum separation of the upper one apart; row indices stay in range.  '
-                 'NOT UNDER CONTRACT: the re-merge pass of ncomp_from_gmm (scikit-learn) and the carry-over from the merge table to the '
+                 'PROVED (F): every helper reachable from find_groups / find_layers / _merge_close_groups outside the chunk class '
+                 '(ncomp_from_gmm, best_gmm, calc_base_height, the scalers, clusterize ...) leaves its arguments unmodified, so the '
+                 'base-height parameters and separations one group is decided with are those every later group is decided with.  '
+                 'PROVED (P, block contract of ncomp_from_gmm: verified from `base_comp_heights = ...` to the end, for 2 and 3 components; the '
+                 'scikit-learn fit before it is replaced by an ASSUMED mid-condition -- one label in 0..K-1 per value, every component '
+                 'populated): every component base is the shared routine\'s result for the values of that component with the caller\'s '
+                 'look-back and percentile, and if no sub-layer is re-merged any two component bases are at least min_sep apart; '
+                 'counter-models are replayed by compiling the same real statements and running them in CPython.  '
+                 'NOT UNDER CONTRACT: the mixture fit itself (scikit-learn), what find_layers hands to ncomp_from_gmm, and the carry-over from the merge table to the '
                  'reported table (same routine on the same hit assignment: A-DET): the separation of the bases finally reported is checked natively on scenes '
                  'built to straddle the separation bins, with rows ascending / descending / shuffled, look-back and exclusion (B).'),
     assumptions=[A_REAL, 'MIN_SEP_LIMS ascending (documented meaning)'],
-    not_decided=['ncomp_from_gmm re-merge pass (bounded only)', 'equality of the merge table with the reported table (A-DET; bounded)'],
+    not_decided=['the mixture fit of ncomp_from_gmm and the arguments find_layers passes (bounded only)', 'equality of the merge table with the reported table (A-DET; bounded)'],
 ))
 
 _add(PropertySpec(
@@ -336,7 +393,8 @@ _add(PropertySpec(
                'ampycloud.data.AbstractChunk._cleanup_pdf', 'ampycloud.data.CeiloChunk.metar_msg', 'ampycloud.icao.significant_cloud',
                'ampycloud.data.CeiloChunk.find_slices', 'ampycloud.data.CeiloChunk._merge_close_groups', 'ampycloud.data.CeiloChunk.metarize',
                'ampycloud.data.CeiloChunk._setup_sligrolay_pdf', 'ampycloud.data.CeiloChunk._calculate_sligrolay_base_height',
-               'ampycloud.data.CeiloChunk._calculate_base_height_for_selection', 'ampycloud.data.CeiloChunk._add_sligrolay_information'],
+               'ampycloud.data.CeiloChunk._calculate_base_height_for_selection', 'ampycloud.data.CeiloChunk._add_sligrolay_information',
+               'ampycloud.layer.ncomp_from_gmm'],
     lemmas=['cnt_frame', 'cnt_mono', 'cnt_subset', 'cnt_union', 'cnt_ext', 'sig_le3', 'abbr_len', 'abbr_re', 'concat_re', 'code_grammar', 'fmt03.digits',
             'prop.C18.h.three_digits', 'prop.C02.nosig', 'prop.C18.h.mono'],
     extras=[_fs.c08], bounded=_bounded('c08'),
@@ -347,7 +405,9 @@ _add(PropertySpec(
                  'row indices inside the tables, message assembly; in find_slices the cluster labels fit the rows they are written to (no '
                  'ValueError from a length mismatch); in the merge loop `idx - 1`, the dropped label and all cell reads are in range; in '
                  'metarize and its helpers every cell read is defined, every selection handed to the base routine is non-empty and holds valid '
-                 'heights.  NOT DECIDED: totality of scikit-learn / statsmodels / pandas internals and the stages not under full-mode '
+                 'heights; in the re-merge pass of ncomp_from_gmm (block contract: verified from `base_comp_heights = ...` on, mixture fit replaced by '
+                 'an assumed mid-condition) the component selections are non-empty, every index is in range and the built-in assert cannot fail '
+                 '(no AssertionError).  NOT DECIDED: totality of scikit-learn / statsmodels / pandas internals and the stages not under full-mode '
                  'contract (find_groups / find_layers bodies): valid scenes x valid parameter sets are run natively (B).'),
     assumptions=[A_REAL, 'library preconditions as stated in pyvc/lib.py'],
     not_decided=['third-party code raises nothing under its stated preconditions', 'call-site preconditions inside find_groups / find_layers'],
